@@ -398,6 +398,9 @@ func (fr *Frame) sliceInstr(st *State, x *ssa.Slice) {
 		if a, ok := fr.addrs[x.X]; ok {
 			// slicing an array that lives in a local or inside a struct: materialise the
 			// array as a heap row (the storage moves; later accesses go through the row)
+			if (a.kind != "local" || len(a.path) != 0) && sliceWrittenDirectly(x) {
+				panic(unsupported("writing through a slice of an array stored inside " + a.kind + " " + a.class))
+			}
 			ref = fr.materialize(st, x.X, a, at)
 		} else if g, ok := x.X.(*ssa.Global); ok {
 			ref = fr.materialize(st, x.X, fr.globalAddr(g), at)
@@ -417,7 +420,14 @@ func (fr *Frame) sliceInstr(st *State, x *ssa.Slice) {
 func (fr *Frame) materialize(st *State, v ssa.Value, a *Addr, at *types.Array) *Term {
 	fc := fr.fc
 	if a.kind != "local" || len(a.path) != 0 {
-		panic(unsupported("slicing an array stored inside " + a.kind + " " + a.class))
+		// an array inside a heap struct (or nested in a local): the slice is modelled as a view
+		// of a copy, which is exact as long as nothing is written through it. Direct writes
+		// (index stores, copy/append destinations) are refused; passing it to a callee that
+		// writes through it is listed as an assumption.
+		if sl, ok := v.Referrers(), true; ok && sl != nil {
+			_ = sl
+		}
+		return fr.viewCopy(st, a, at)
 	}
 	cur := fc.load(st, a)
 	ref := fr.alloc(st)
@@ -508,4 +518,44 @@ func (fr *Frame) rangeNext(st *State, x *ssa.Next) {
 	fr.typeInv(st, v, mt.Elem())
 	fr.typeInv(st, k, mt.Key())
 	fr.tuples[x] = []*Term{ok, k, v}
+}
+
+// viewCopy: a fresh heap row holding a copy of the array stored at address a.
+func (fr *Frame) viewCopy(st *State, a *Addr, at *types.Array) *Term {
+	fc := fr.fc
+	cur := fc.load(st, a)
+	ref := fr.alloc(st)
+	cls := elemClass(at.Elem())
+	h := fc.get(st, cls, elemClassSort(at.Elem()))
+	st.heap[cls] = Store(h, ref, cur)
+	fc.note("slice of an array stored inside " + a.class + " is modelled as a read-only copy")
+	return ref
+}
+
+// sliceWrittenDirectly: the slice value is the destination of an index store, copy or append in
+// the same function (then the copy model would lose the write).
+func sliceWrittenDirectly(x *ssa.Slice) bool {
+	refs := x.Referrers()
+	if refs == nil {
+		return false
+	}
+	for _, r := range *refs {
+		switch u := r.(type) {
+		case *ssa.IndexAddr:
+			if u.X == x {
+				if rr := u.Referrers(); rr != nil {
+					for _, w := range *rr {
+						if s, ok := w.(*ssa.Store); ok && s.Addr == u {
+							return true
+						}
+					}
+				}
+			}
+		case *ssa.Call:
+			if b, ok := u.Call.Value.(*ssa.Builtin); ok && (b.Name() == "copy" || b.Name() == "append") && len(u.Call.Args) > 0 && u.Call.Args[0] == x {
+				return true
+			}
+		}
+	}
+	return false
 }
